@@ -137,6 +137,7 @@ type CertSpec struct {
 	Extra        []pkix.Extension
 	IssuerName   *pkix.Name // override the issuer name (nil: parent's subject)
 	EmptySubject bool       // empty subject DN, identity in a critical subjectAltName (RFC 5280 4.1.2.6)
+	SKI          []byte     // subject key identifier (nil: derived from the key by crypto/x509 for CA certificates)
 	AKI          []byte     // authority key identifier of a self-issued certificate (nil: none; issued certificates carry the parent's subject key identifier)
 }
 
@@ -210,6 +211,9 @@ func Issue(spec CertSpec, parent *Cert, signKey crypto.Signer) *Cert {
 	}
 	if spec.AKI != nil {
 		tmpl.AuthorityKeyId = spec.AKI
+	}
+	if spec.SKI != nil {
+		tmpl.SubjectKeyId = spec.SKI
 	}
 	if spec.EmptySubject {
 		tmpl.Subject = pkix.Name{}
